@@ -705,7 +705,9 @@ class EvalMixin:
             if b.skolem:
                 facts = list(st.pc[b.keep + 1:])
                 if facts:
-                    lifted = z3.ForAll([bv], z3.Implies(g, z3.And(facts)), patterns=list(b.skolem))
+                    pats_ = [t_ for t_ in b.skolem if ops.pat_ok(t_)]
+                    lifted = (z3.ForAll([bv], z3.Implies(g, z3.And(facts)), patterns=pats_) if pats_
+                              else z3.ForAll([bv], z3.Implies(g, z3.And(facts))))
         if lifted is not None:
             st.assume(lifted)
         it = gen.iter
